@@ -55,8 +55,17 @@ def hexs(b):
     return b.hex() if len(b) else '-'
 
 
+def unmark(v):
+    """scenario value -> Python value: 'TAT:k' stands for the enum member isotp.TargetAddressType(k) (scenarios are stored as JSON)"""
+    if isinstance(v, str) and v.startswith('TAT:'):
+        return isotp.TargetAddressType(int(v[4:]))
+    return v
+
+
 def pv(v):
     """Python value -> PyVal token"""
+    if isinstance(v, str) and v.startswith('TAT:'):
+        return 'i' + v[4:]          # the model presents a member by its integer value
     if v is None:
         return 'N'
     if isinstance(v, bool):
@@ -235,7 +244,7 @@ class ImplRunner:
     def do_layer(self, op):
         i = op['i']
         a = op['addr']
-        params = dict(op.get('params', {}))
+        params = {k: unmark(v) for k, v in op.get('params', {}).items()}
         params.setdefault('wait_func', _noop_wait)
         toks = ['layer', str(i)] + all_addr_tokens(a)
         self.inbox[i] = []
@@ -380,7 +389,7 @@ class ImplRunner:
             self.plain(line, 'bad-layer')
             return
         try:
-            self.layers[i].params.set(op['key'], op['value'])
+            self.layers[i].params.set(op['key'], unmark(op['value']))
             res = 'ok'
         except Exception as e:
             res = 'exc %s' % type(e).__name__
@@ -601,15 +610,15 @@ class ImplRunner:
             # time"); `before`: values the object held earlier (overwritten by the final ones)
             last = op.get('last')
             for k, v in (op.get('before') or {}).items():
-                P.set(k, v, validate=False)
+                P.set(k, unmark(v), validate=False)
             for k, v in raw.items():
                 if k != last:
-                    P.set(k, v, validate=False)
+                    P.set(k, unmark(v), validate=False)
             P.wait_func = _noop_wait
             if last is None:
                 P.validate()
             else:
-                P.set(last, raw[last])
+                P.set(last, unmark(raw[last]))
             res = 'ok'
         except Exception as e:
             res = 'exc %s' % type(e).__name__
